@@ -397,6 +397,57 @@ Fixpoint t_run (fuel : nat) (gate : bool) (i : nat) (c : cfg) : cfg :=
   | S f => if t_blocked gate i c then c else t_run f gate i (t_step i c)
   end.
 
+(** *** the machine as of /repo 40dc6a8: syncStore.Append is ONE step
+
+    Since 40dc6a8 syncStore.Append holds a mutex from loading its head to the
+    return of Store.Append: with respect to other Appends (the sync loop's and
+    every learner call's) it is atomic.  [astep] is [step] with the three
+    program counters of an Append (check / head := / Store.Append) taken in one
+    go.  Every run of [astep] is a run of [step] ([arun_run], Proofs/SyncerLiveP.v):
+    what is proved for every schedule of the finer machine holds for this one. *)
+Definition shim_apply (hs : list hdr) (c : cfg) : option cfg :=      (* None = errNonAdjacent, nothing written *)
+  match shim_check (c_cache c) hs with
+  | ShimEmpty => Some c
+  | ShimSkip => Some (c <| c_store ::= rs_append hs |>)
+  | ShimOk nh => Some (c <| c_cache := nh |> <| c_store ::= rs_append hs |>)
+  | ShimNonAdj => None
+  end.
+
+Definition l_astep (a : ganswer) (c : cfg) : cfg :=
+  match c_loop c with
+  | LApp0 k hs =>
+    match shim_apply hs c with
+    | Some c' => after_app k hs c'
+    | None => l_finish (Some SENonAdj) c
+    end
+  | _ => l_step a c
+  end.
+
+Definition t_astep (i : nat) (c : cfg) : cfg :=
+  match nth_error (c_thr c) i with
+  | Some (TRun mu res x SL0 rest) =>
+    match shim_apply [x] c with
+    | Some c' => set_thr i (TRun mu res x SL3 rest) c'
+    | None => set_thr i (TRun mu res x SL3 rest) c              (* errNonAdjacent is ignored *)
+    end
+  | _ => t_step i c
+  end.
+
+Definition astep (c : cfg) (e : event) : cfg :=
+  match e with
+  | EL a => l_astep a c
+  | ET i => t_astep i c
+  | _ => step c e
+  end.
+
+Definition arun (c : cfg) (es : list event) : cfg := fold_left astep es c.
+
+Fixpoint l_arun (fuel : nat) (c : cfg) : cfg :=
+  match fuel with
+  | O => c
+  | S f => if l_blocked false c then c else l_arun f (l_astep GErr c)
+  end.
+
 (** *** histories with atomic learner calls (the sequential view used by
     C07): a gossip delivery / Head() call runs to completion before anything
     else moves; the sync loop moves one small step at a time, so heads arrive
